@@ -9,7 +9,14 @@ def x(s):
     return "x" + s.encode("utf-8").hex()
 
 
-def run_line(main, mods=None, backends=("vm", "tree"), ast=True, limits=None, entry=None, timeout_ms=None, asm=False):
+def singletons_sexp(singletons):
+    """{"$Name": "<value sexp of harness/values.go>"} -> `(singletons (x<name> V)…)`; the same text
+    is understood by `hv run` and (inside `(hosted … <modules>)`) by the driver's spec/vmrun."""
+    return "(singletons" + "".join(f" ({x(k)} {v})" for k, v in singletons.items()) + ")"
+
+
+def run_line(main, mods=None, backends=("vm", "tree"), ast=True, limits=None, entry=None, timeout_ms=None, asm=False,
+             singletons=None):
     parts = ["(run"]
     if asm:
         parts.append("(asm true)")
@@ -21,6 +28,8 @@ def run_line(main, mods=None, backends=("vm", "tree"), ast=True, limits=None, en
         parts.append(f"(entry {x(entry)})")
     if timeout_ms:
         parts.append(f"(timeout {timeout_ms})")
+    if singletons is not None:
+        parts.append(singletons_sexp(singletons))
     parts.append(f"(main {x(main)})")
     for name, src in (mods or {}).items():
         parts.append(f"(mod {x(name)} {x(src)})")
@@ -59,14 +68,20 @@ def parse_outcome(s):
 
 
 def run_all(sources, fuel=200000, call_limit=100, with_spec=True, with_model_vm=False, **kw):
-    """sources: list of main texts or (main, mods) pairs. Returns list of dicts with keys
-    A, VM, TREE, SPEC (parsed outcomes), raw fields."""
-    lines = []
+    """sources: list of main texts, (main, mods) pairs or (main, mods, singletons) triples
+    (singletons: {"$Name": value sexp} = what the host provides; `singletons=` in kw applies to every
+    source that does not bring its own). Returns list of dicts with keys A, VM, TREE, SPEC (parsed
+    outcomes), raw fields."""
+    lines, hosts = [], []
+    default_host = kw.pop("singletons", None)
     for s in sources:
         if isinstance(s, tuple):
-            lines.append(run_line(s[0], s[1], **kw))
+            host = s[2] if len(s) > 2 and s[2] is not None else default_host
+            lines.append(run_line(s[0], s[1], singletons=host, **kw))
         else:
-            lines.append(run_line(s, **kw))
+            host = default_host
+            lines.append(run_line(s, singletons=host, **kw))
+        hosts.append(host)
     go = core.go_lines("run", lines, timeout=900)
     res = []
     spec_in, spec_idx = [], []
@@ -82,11 +97,13 @@ def run_all(sources, fuel=200000, call_limit=100, with_spec=True, with_model_vm=
                 r[k] = parse_outcome(f[k])
         if "ASM" in f:
             r["ASM"] = f["ASM"]
+        # the model sides get the same host: `(hosted (singletons …) <modules>)`
+        prog = f"(hosted {singletons_sexp(hosts[i])} {f['AST']})" if hosts[i] is not None and "AST" in f else f.get("AST")
         if with_spec and "AST" in f:
-            spec_in.append(f"spec {fuel} {call_limit} {f['AST']}")
+            spec_in.append(f"spec {fuel} {call_limit} {prog}")
             spec_idx.append((i, "SPEC"))
         if with_model_vm and "AST" in f:
-            spec_in.append(f"vmrun {lim[0]} {lim[1]} {lim[2]} {f['AST']}")
+            spec_in.append(f"vmrun {lim[0]} {lim[1]} {lim[2]} {prog}")
             spec_idx.append((i, "MVM"))
             spec_in.append(f"compile {f['AST']}")
             spec_idx.append((i, "MASM"))
